@@ -27,7 +27,19 @@ def run_one(sid, tier="quick"):
         print("refusing: /repo has local modifications"); return None
     rc, out = sh(["git", "-C", "/repo", "apply", os.path.join(d, "patch.diff")])
     if rc != 0:
-        print(sid, "patch does not apply:", out); return None
+        # hooks / fixes moved the context: 3-way apply (the base blobs are in this repository), then
+        # refresh the stored patch so that it applies to the current HEAD
+        rc, out = sh(["git", "-C", "/repo", "apply", "-3", os.path.join(d, "patch.diff")])
+        rc2, conflicts = sh(["git", "-C", "/repo", "diff", "--name-only", "--diff-filter=U"])
+        if rc != 0 or conflicts.strip():
+            sh("git -C /repo reset -q --hard HEAD")
+            print(sid, "patch does not apply (3-way failed):", out[-300:]); return None
+        sh("git -C /repo reset -q")          # unstage, keep working tree
+        rc, diff = sh(["git", "-C", "/repo", "diff"])
+        if not os.path.exists(os.path.join(d, "patch.orig.diff")):
+            os.rename(os.path.join(d, "patch.diff"), os.path.join(d, "patch.orig.diff"))
+        open(os.path.join(d, "patch.diff"), "w").write(diff)
+        print(sid, "patch rebased onto", sh(["git", "-C", "/repo", "rev-parse", "--short", "HEAD"])[1].strip())
     t0 = time.time()
     try:
         rc, out = sh(["./check", pid, "--tier", tier], cwd=V, timeout=3600)
